@@ -457,7 +457,8 @@ def build_rules(ck, T):
             S.oblige('post', is_empty_list(out.value), tag='rewrites-to-the-empty-product')
             S.oblige('post', never_twice, tag='fires-only-if-no-element-is-selected-twice (LA5)')
         elif out.raised('NoReduction'):
-            S.oblige('post', z_not(never_twice), tag='declines-only-if-an-integer-array-without-uniqueness-promise')
+            if S.ck.prop != 'C01':
+                S.oblige('post', z_not(never_twice), tag='declines-only-if-an-integer-array-without-uniqueness-promise')
         else:
             S.oblige('exc', False, tag=f'undeclared-{out.value.name}')
     ck.explore(f'{IND}.IndexTransposeRule.apply', index_transpose, T)
@@ -505,6 +506,8 @@ def build_rules(ck, T):
         naxes = R(n)                                  # number of indexed axes (ghost; linked by the callee contract)
         same_shapes = True if nleaves == 1 else xs[0].shape.eq(xs[1].shape)
         if out.raised('NoReduction'):
+            if S.ck.prop == 'C01':
+                return      # declining is always sound; whether the pattern must be rewritten is C07/C12's matter
             legit = z_or(naxes > 1, naxes == 0, z_not(same_shapes))
             if uniq_case == 1:
                 # the property wants the diagonal of multiplicities for every single indexed axis
